@@ -234,7 +234,7 @@ def judge(V, mode, vector, trace, info):
             if not e[5]:
                 bad.append(("C09/handshake/rst-without-cancel-prefix", "RST frame not prefixed with CANCEL"))
             seen_handshake = True
-        if e[2] == "n2h" and e[3] and e[3][0] == "RSTACK" and e[4] in ("ok", "dup"):
+        if e[2] == "n2h" and e[3] and e[3][0] == "RSTACK" and e[4] in ("ok", "dup", "dup1"):
             seen_handshake = True
         if e[2] == "h2n" and e[3] and e[3][0] == "D" and not seen_handshake:
             bad.append(("C09/handshake/data-before-reset", "a DATA frame was written before any reset handshake"))
